@@ -26,6 +26,7 @@ type Obligation struct {
 	ExpectSat bool   // cover queries: sat is the good answer
 	Err     string   // generation failure (counts as undischarged)
 	Fx      *FnExec  // the function execution this obligation belongs to (for replay)
+	Expr    SpecExpr // the conjunct this obligation checks (for evaluating it on a concrete run)
 }
 
 type exitRec struct {
@@ -85,6 +86,7 @@ type FnExec struct {
 	formalKeys  []string
 	freezeHV    bool
 	resultTerms []Term
+	entryPos    int // script position right after the parameters were declared
 }
 
 func (g *Gen) NewFnExec(fn *ssa.Function, c *Contract) *FnExec {
@@ -158,6 +160,7 @@ func (fx *FnExec) AssertClause(st *State, env *SpecEnv, name, kind string, cl Cl
 			n = fmt.Sprintf("%s/%d", name, i+1)
 		}
 		fx.Assert(st, n, kind, cl.Src, env.EvalBool(p))
+		fx.obls[len(fx.obls)-1].Expr = p
 	}
 }
 
@@ -335,6 +338,7 @@ func (fx *FnExec) Run() (err error) {
 	}
 	fx.entry = st.Clone()
 	fx.entry.frozen = true
+	fx.entryPos = fx.sc.Pos()
 	// preconditions
 	if fx.contract != nil {
 		for _, cl := range fx.contract.Requires {
